@@ -49,11 +49,12 @@ def gen(rng: Any, prop: str, tier: str) -> dict[str, Any]:
     sids = [f"s{i}" for i in range(k)]
     for sid in sids:
         g.connect(sid, "DB1", "S1")
+    g.exec(sids[0], {"t": "create_table", "ref": [None, None, "PB"], "cols": [["A", "INT"], ["B", "VARCHAR(40)"]]})
     n_ops = rng.randint(6, 40)
     names = ["T1", "T2", "T3"]
     for _ in range(n_ops):
         sid = rng.choice(sids)
-        tables = g.all_tables()
+        tables = [t for t in g.all_tables() if t[2] != "PB"]
         kind = rng.choices(
             ["create", "insert", "insert_cols", "insert_select", "update", "delete", "truncate", "select", "drop", "ddl", "bad"],
             [6 if len(tables) < 2 else 2, 16, 5, 4, 12, 10, 2, 6, 1, 2, 3],
@@ -76,6 +77,14 @@ def gen(rng: Any, prop: str, tier: str) -> dict[str, Any]:
                     rows.append(list(rng.choice(existing)))  # duplicates
                 else:
                     rows.append(g.row_for(cols, 0.2))
+            if rng.random() < 0.2:
+                # an INSERT with bound parameters (pyformat) into the side table PB: the values are data whatever they contain
+                # (PB is never used in generated predicates, so its '$' texts do not reappear as literals: that is C15's known finding)
+                row = [g.fresh(), rng.choice(["$5 off", "was $price each", "100%", "semi;colon", "plain"])]
+                st = {"t": "insert", "ref": [None, None, "PB"], "rows": [row]}
+                g.m.apply(sid, st)
+                g.ops.append({"s": sid, "k": "exec", "sql": "INSERT INTO PB VALUES (%s, %s)", "params": row, "st": st, **extra})
+                continue
             g.exec(sid, {"t": "insert", "ref": ref, "rows": rows}, **extra)
         elif kind == "insert_cols":
             sub = rng.sample(cols, rng.randint(1, len(cols)))
